@@ -270,7 +270,9 @@ def differential(runs, props, prog, inputs, out, chunks, modulus, key, tags, vki
             for p in props & {"C05", "C14"}:
                 runs[p].count("api_raised_outside_inner_domain")
             return
-        if any(hasattr(v, "num") and abs(v.num()) >= modulus // 4 for k, v in ref.ns.items() if k[0] in "vxg" and k[1:].isdigit()):
+        if any(isinstance(v, int) and abs(v) >= modulus // 4 for v in inputs) or \
+                any(hasattr(v, "num") and abs(v.num()) >= modulus // 4 for k, v in ref.ns.items() if k[0] in "vxg" and k[1:].isdigit()):
+            # (the inputs themselves count: a variable may have been overwritten by the time the twin's run ends)
             for p in props & {"C05", "C14"}:
                 runs[p].count("api_raised_with_values_beyond_p/4")
             return
@@ -608,6 +610,19 @@ def foreign_operands(job):
         prog = G.Prog(src, [], 16, rnd.choice([0, 4, 8]))
         for ignore in ((False, True) if "C04" in props else (False,)):
             xv = rnd.choice(big + [rnd.randint(-9, 9), 5, 0, 70000, -70000])
+            if rnd.random() < 0.4:
+                # the secret's value equal to (next to) the foreign operand's: comparisons have both outcomes
+                for tok in FOREIGN_OPERANDS:
+                    if tok in st:
+                        try:
+                            from fractions import Fraction
+                            from decimal import Decimal
+                            ov = eval(tok, {"Fraction": Fraction, "Decimal": Decimal})
+                            if isinstance(ov, (int, float, Fraction, Decimal)) and ov == int(ov) and abs(ov) < (1 << 62):
+                                xv = int(ov) + rnd.choice([0, 0, 1, -1])
+                        except Exception:  # noqa
+                            pass
+                        break
             inputs = [xv, rnd.choice(big + [3, -2]), rnd.randint(0, 1), rnd.choice([1.5, -2.25, 0.0, 3.0, 1000.5])]
             contracts.clear()
             out = G.run_api(prog, inputs, neutral, modulus=recorder.BN254, ignore=ignore, chunks=chunks)
@@ -628,6 +643,31 @@ def foreign_operands(job):
                             (bad or snap["online_bad"])[0], len(snap["constraints"])), src=src, inputs=inputs, bl=16, res=prog.res, p=recorder.BN254, statement=st)
                 else:
                     R.case(nontrivial=False)
+            if "C05" in props and not ignore and done and st.startswith(("r = x ", "r = b ")) and "r" in out.ns:
+                # an operator that accepts the foreign operand must return what Python computes on the plain values (whole numbers only:
+                # nothing is claimed about rounding)
+                R = runs["C05"]
+                from fractions import Fraction
+                from decimal import Decimal
+                try:
+                    nns = {"x": inputs[0], "b": bool(inputs[2]), "Fraction": Fraction, "Decimal": Decimal}
+                    exec(st, nns)
+                    native = nns["r"]
+                except Exception:  # noqa
+                    native = None
+                got = out.ns["r"]
+                kind, num = api_number(got, prog.res)
+                if kind is None and isinstance(got, (bool, int)):
+                    num = int(got)        # a plain Python result (an operator that fell back to Python's default)
+                whole = isinstance(native, (bool, int)) or (isinstance(native, (float, Fraction, Decimal)) and native == int(native) and abs(native) < (1 << 52))
+                if st.startswith("r = b **"):
+                    whole = False         # powers of a secret bit: judged by C05's own templates (known finding bool-pow-ignores-exponent)
+                if native is not None and whole and num is not None and not isinstance(num, float) and abs(int(native)) < recorder.BN254 // 4:
+                    R.count("values_compared")
+                    R.case(cell="foreign-operand|value|" + st.split()[3], key=key)
+                    if (int(num) - int(native)) % recorder.BN254:
+                        R.violation("value-differs:foreign-operand", "%s on x=%s, b=%s returned %r, Python computes %r" % (st, inputs[0], inputs[2], got if kind is None else num, native),
+                                    src=src, inputs=inputs, bl=16, res=prog.res, p=recorder.BN254, statement=st)
             if "C04" in props:
                 R = runs["C04"]
                 contracts.sweep("end of run")
@@ -643,6 +683,59 @@ def foreign_operands(job):
                                 src=src, inputs=inputs, ignore=ignore, bl=16, res=prog.res, p=recorder.BN254, statement=st, n_mismatches=len(contracts.State.mismatches))
             contracts.clear()
     return {p: runs[p].export() for p in props}
+
+def handled_refusals(job):
+    """C01 for scripts that provoke a refusal and handle it: one operation on operands for which the reference twin must raise
+    (a false assertion, an inexact or zero division, a value beyond the bit length ...) inside try / except, a little valid
+    arithmetic afterwards, a normal end.  The run as a whole did not raise, so whatever the refused operation left in the
+    constraint system must be satisfied by the witness like everything else."""
+    from vf.gen import prog as G
+    from vf.ref import model
+    from vf import recorder, opcases
+    from vf.checks import C07
+    rt = boot.attach()
+    neutral = boot.Neutral()
+    R = common.Run("C01", LEVEL["C01"], RULES["C01"])
+    rnd = random.Random(job["seed"])
+    tmpls = [t for t in G.INT_T + G.BOOL_T + G.FXP_T + G.ASSERT_T if not t[0].startswith(("val_", "igprint", "repr_", "format_"))]
+    for n in range(job["n"]):
+        tid, rty, tmpl = rnd.choice(tmpls)
+        bl = rnd.choice([4, 6, 8])
+        res = rnd.choice([0, 1, 2]) if ("{f}" in tmpl or "{c}" in tmpl or "Fxp" in tmpl) else 0
+        try:
+            case = opcases.sample_case(tid, tmpl, rty, bl, res, rnd)
+            ins = C07.sample_operands(case, tmpl, bl, res, rnd, model, G, want_valid=False)
+        except Exception:  # noqa
+            ins = None
+        if ins is None:
+            R.count("handled_refusal_no_invalid_operands")
+            continue
+        body = ("r = " if rty is not None else "") + case.expr
+        src = case.pre_src + C07.HELPERS + "refused = 0\ntry:\n    " + body.replace("\n", "\n    ") + \
+            "\nexcept (AssertionError, ValueError, ZeroDivisionError, RuntimeError, TypeError, OverflowError):\n    refused = 1\nafter = PrivVal(3) * PrivVal(4) + 1\nafter.assert_eq(13)\n"
+        prog = G.Prog(src, [], bl, res)
+        try:
+            chunks = G.compile_chunks(src)
+        except SyntaxError:
+            continue
+        out = G.run_api(prog, ins, neutral, modulus=recorder.BN254, chunks=chunks)
+        R.count("handled_refusal_runs")
+        key = _hash(src, ins)
+        if out.exc is not None:
+            R.count("handled_refusal_runs_raised_anyway:" + type(out.exc).__name__)
+            R.case(nontrivial=False)
+            continue
+        R.count("handled_refusal_runs_refused" if out.ns.get("refused") else "handled_refusal_runs_accepted")
+        snap = out.snap
+        bad = r1cs.unsatisfied(snap["constraints"], snap["values"], snap["p"])
+        R.count("constraints_evaluated", len(snap["constraints"]))
+        R.case(cell="handled-refusal|%s|%s" % (tid, "refused" if out.ns.get("refused") else "accepted"), key=key, nontrivial=len(snap["constraints"]) > 0)
+        if (bad or snap["online_bad"]) and out.ns.get("refused"):
+            R.violation("unsatisfied-constraint:after-handled-refusal", "%s on %s was refused, the script handled the refusal and ended normally, but constraint %d of %d is unsatisfied" % (
+                case.expr, ins, (bad or snap["online_bad"])[0], len(snap["constraints"])), src=src, inputs=ins, bl=bl, res=res, p=recorder.BN254, statement=case.expr)
+        elif bad or snap["online_bad"]:
+            R.count("accepted_invalid_operation_left_unsatisfied_constraint")      # not refused at all: the ordinary C01 workload's business
+    return {"C01": R.export()}
 
 
 def fingerprints(job):
